@@ -107,6 +107,8 @@ UNITS = {
         'serves': ['C06', 'C05'],
         'fn_props': {
             r'^Sequences::next$': ['C06', 'C05'],
+            r'^Sequences::seq_stats$': ['C06', 'C05', 'C14'],
+            r'^lemma_total_len': ['C06', 'C05', 'C14'],
             r'^verif_lift_gz_decoder$': ['C06'],
         },
     },
@@ -140,6 +142,22 @@ UNITS = {
         'template': 'pyglue.vrs', 'backend': 'verus',
         'serves': ['C13'],
     },
+    'ctor': {
+        'template': 'ctor.vrs', 'backend': 'verus',
+        'serves': ['C15'],
+        'fn_props': {
+            r'^OligoComputer::new$': ['C03', 'C04', 'C14', 'C15'],
+            r'^OligoComputer::set_': ['C15', 'C05'],
+            r'^py::': ['C13'],
+            r'^cov::CovComputer::new$': ['C08', 'C15'],
+            r'^cov::CovComputer::set_': ['C15', 'C08'],
+            r'^GB_4$': ['C05', 'C15'],
+        },
+    },
+    'kmer_sym': {
+        'template': 'kmer_sym.vrs', 'backend': 'verus',
+        'serves': ['C02'],
+    },
     'n2k': {
         'template': 'n2k.vrs', 'backend': 'verus',
         'serves': ['C02', 'C03'],
@@ -150,7 +168,7 @@ HOOK_COMMITS = []
 
 PROPS = {
     'C01': {
-        'units': ['kmer_gen'], 'deps': [], 'replay': 'c01',
+        'units': ['kmer_gen'], 'deps': [], 'replay': 'c01,c13',
         'level_text': 'Verus proves, for the verbatim text of KmerGenerator::new/next and every byte string and every k in 1..=31, '
                       'that each call returns exactly the next position whose k-window is clean with the exact forward and reverse codes '
                       '(unbounded: all lengths, all k); a ghost driver lifts this to the whole stream.',
@@ -159,17 +177,17 @@ PROPS = {
         'not_reached': ['pyo3 glue of pybindings/src/kmer.rs (__next__ delegates to the verified next); transmute lifetime extension'],
     },
     'C02': {
-        'units': ['kmer_gen', 'n2k', 'kmer_kani'], 'deps': [], 'replay': 'c02',
+        'units': ['kmer_gen', 'n2k', 'kmer_kani', 'kmer_sym'], 'deps': [], 'replay': 'c02',
         'level_text': 'Verus proves for the verbatim rev_comp and numeric_to_kmer, all k <= 31 and all codes: rev_comp(x,k) equals the arithmetic reverse '
                       'complement rc_num (loop invariant over the accumulator form), rc_num is an involution below 4^k and equals the code of the '
                       'reverse-complemented text; decoding gives k letters over ACGT that re-encode to x mod 4^k; every pair of the iterator stream has '
                       'second == rc_num(first). Unbounded in k-range and sequence length.',
         'level_note': 'trusted: Verus/Z3, vstd, extractor rules R1 R3 R6 R8; R8 stub verif_rev_string (std chars().rev().collect() reverses a string) is assumed; '
-                      'stream-reversal symmetry for whole sequences is a spec-level corollary (see evidence not_reached if not yet proved).',
-        'not_reached': ['stream symmetry of a whole reverse-complemented sequence (spec-level lemma over kmers_spec), if not listed among the bundles'],
+                      'stream-reversal symmetry for whole sequences is proved as spec-level lemmas in unit kmer_sym (they reach the code through the stream theorem of kmer_gen).',
+        'not_reached': [],
     },
     'C09': {
-        'units': ['minimiser'], 'deps': [], 'replay': 'c09',
+        'units': ['minimiser'], 'deps': [], 'replay': 'c09,c13',
         'level_text': 'Verus proves for the verbatim MinimiserGenerator::new/next, every byte string and every 1 <= m <= w, m <= 31: the representation invariant, '
                       'absence of panics/overflow/unwrap-on-None, termination, and that every emitted triple carries a real minimiser (never the u64::MAX placeholder) '
                       'and spans at least one full window inside the sequence.',
@@ -187,7 +205,7 @@ PROPS = {
         'not_reached': [],
     },
     'C03': {
-        'units': ['posmaps', 'header'], 'deps': ['kmer_gen', 'n2k'], 'replay': 'c03',
+        'units': ['posmaps', 'header', 'ctor'], 'deps': ['kmer_gen', 'n2k'], 'replay': 'c03,c13',
         'level_text': 'Verus proves for the verbatim kmer_pos_maps and every k in 1..=15 that (pos_map, pos_kmer, count) is the order isomorphism between [0,count) '
                       'and the canonical k-mers (x <= revcomp(x)): canonical codes map to indices below count and back, the index->code map is strictly increasing '
                       '(hence index == rank in increasing code order), non-canonical entries are 0 and the map has no other key; and that the three header builders '
@@ -200,7 +218,7 @@ PROPS = {
                         'String::join with the delimiter and the write of the header line (std)'],
     },
     'C04': {
-        'units': ['oligo_vec', 'float_kani'], 'deps': ['kmer_gen', 'posmaps', 'mmap_rows', 'batch_loops'], 'replay': 'c04',
+        'units': ['oligo_vec', 'float_kani', 'ctor'], 'deps': ['kmer_gen', 'posmaps', 'mmap_rows', 'batch_loops'], 'replay': 'c04,c13',
         'level_text': 'Verus proves for the verbatim accumulation loop (three copies: oligo.rs vectorise_one, oligocgr.rs seq_to_kmer, pybindings vectorise_one), '
                       'every byte string shorter than 2^53 and every k in 1..=15: the row has one value per canonical column and column i holds of_nat(number of valid '
                       'windows whose canonical code is the column k-mer), raw, or divided by fmax(1, total valid windows) when normalised (all-zero row when there is no window); '
@@ -223,7 +241,7 @@ PROPS = {
         'not_reached': ['the glue between the lifted fragments (closure captures, `let header_len = header.len()`, the Mutex-guarded record hand-out)', 'unsafe pointer copy inside MMWriter::write_at; memmap2'],
     },
     'C11': {
-        'units': ['cgr', 'float_kani'], 'deps': [], 'replay': 'c11',
+        'units': ['cgr', 'float_kani'], 'deps': [], 'replay': 'c11,c13',
         'level_text': 'Verus proves for the verbatim cgr_maps (both copies) and vectorise_one (core and Python binding), for every byte string: the corner table is exactly '
                       '{A,a->(0,0); C,c->(0,S); G,g->(S,S); T,t,U,u->(S,0)} with no other key and the centre is (S/2,S/2); Ok(v) iff every byte is a nucleotide letter, then one point per base and '
                       'point i == midpoint(corner(base i), point i-1 or centre) (so it depends only on the first i bases); any other byte gives Err and no coordinates. Spec-level lemma: every '
@@ -234,7 +252,7 @@ PROPS = {
         'not_reached': ['sub-square containment beyond one halving (j > 1) and exact dyadic values', 'file-level batching/ordering of cgr.rs::vectorise (see C05-style loop contracts if listed)', 'pyo3 mapping of Err to ValueError'],
     },
     'C08': {
-        'units': ['cov_vec', 'batch_loops', 'float_kani'], 'deps': ['kmer_gen', 'count_route'], 'replay': 'c08',
+        'units': ['cov_vec', 'batch_loops', 'float_kani', 'ctor'], 'deps': ['kmer_gen', 'count_route'], 'replay': 'c08',
         'level_text': 'Verus proves for the verbatim CovComputer::vectorise_one, every byte string, every k <= 31, every bin size and bin count >= 1 and every counts table: the row has '
                       'bin-count entries and entry b is of_nat(number of valid windows whose canonical k-mer has multiplicity c in the table with min(c / bin-size, bin-count - 1) == b), absent k-mers '
                       'counting 0, raw or divided by fmax(1, total); the unchecked index is in bounds. For the lifted batch loop of compute_coverages: every record is rendered exactly once, in reader order, including the final flush.',
@@ -281,7 +299,7 @@ PROPS = {
         'not_reached': ['OligoCgrComputer::new wiring (tables -> struct fields)', 'text rendering "({},{},{})" and file writing', 'thread independence rests on rayon collect order (assumed)'],
     },
     'C13': {
-        'units': ['oligo_vec', 'header', 'cgr', 'pyglue'], 'deps': ['kmer_gen', 'posmaps', 'n2k', 'minimiser'], 'replay': None,
+        'units': ['oligo_vec', 'header', 'cgr', 'pyglue', 'ctor'], 'deps': ['kmer_gen', 'posmaps', 'n2k', 'minimiser'], 'replay': 'c13',
         'level_text': 'Narrow claim. The loops that the Python binding duplicates from the core (OligoComputer::vectorise_one, get_header, CgrComputer::vectorise_one in pybindings/src) are extracted and proved against the SAME '
                       'postconditions as the core functions (C04, C03, C11) over the UTF-8 bytes of the string, so core and binding compute the same row / header / points; non-ASCII characters are bytes >= 0x80, '
                       'which the spec treats as ambiguous / non-nucleotide bytes. The iterator wrappers __next__/to_acgt are single delegating calls to the functions verified under C01/C02/C09.',
@@ -301,7 +319,7 @@ PROPS = {
         'not_reached': ['worker interleavings and chunk boundaries', 'merge(): parsing chunk files, summing, deleting temporary files', 'init(): partition count from float arithmetic'],
     },
     'C15': {
-        'units': ['cli_wiring'], 'deps': [], 'replay': 'c15',
+        'units': ['cli_wiring', 'ctor'], 'deps': [], 'replay': 'c15',
         'level_text': 'Narrow claim. Verus proves for the lifted option-to-setter statements of the oligo, coverage, counter and minimiser arms of cli(), against stub computers whose setters record a ghost configuration: '
                       'csv/tsv/spc change only the delimiter (",", tab, space), the header flag only sets header, counts only flips normalisation, --acgt only sets the rendering flag, the thread option is applied iff > 0 and touches nothing else, '
                       'k / bins / memory / alt-input are passed through unchanged; and every value accepted by the clap value_parser ranges (read from the attribute text on every run) satisfies the preconditions of the library '
